@@ -62,6 +62,7 @@ type Contract struct {
 	// resolved
 	Decl    *ast.FuncDecl
 	Clause  *ast.CaseClause // for clause units
+	MapLoop bool            // map-range unit (maprange.go)
 	ResVars []string
 	PreDecls []ast.Stmt
 }
@@ -261,6 +262,15 @@ func parseContracts(file string, pkgPath string) ([]*Contract, error) {
 		switch kw {
 		case "func", "clause":
 			cur = &Contract{Name: rest, Pkg: pkgPath, Loops: map[int]*LoopSpec{}, File: file, Line: ln + 1, Mode: "int", Opts: map[string]string{}}
+			loop = nil
+			out = append(out, cur)
+		case "maploop":
+			// `maploop FUNC N`: order-insensitivity unit for the N-th map-range loop of FUNC (maprange.go)
+			f := strings.Fields(rest)
+			if len(f) != 2 {
+				return nil, fmt.Errorf("%s:%d: maploop FUNC N", file, ln+1)
+			}
+			cur = &Contract{Name: f[0] + "/maploop " + f[1], Pkg: pkgPath, Loops: map[int]*LoopSpec{}, File: file, Line: ln + 1, Mode: "int", Opts: map[string]string{}, MapLoop: true}
 			loop = nil
 			out = append(out, cur)
 		case "props":
@@ -564,6 +574,16 @@ func (pk *Pkg) injectAndRecheck(w *World) error {
 	for _, c := range pk.Contracts {
 		name := c.Name
 		label := ""
+		if c.MapLoop {
+			fn, _, _ := strings.Cut(name, "/maploop ")
+			fd := pk.FuncDecls[fn]
+			if fd == nil {
+				return fmt.Errorf("%s:%d: map-loop unit for unknown function %q", c.File, c.Line, fn)
+			}
+			c.Decl = fd
+			pk.ByName[c.Name] = c
+			continue
+		}
 		if i := strings.Index(name, "/case "); i >= 0 {
 			label = strings.TrimSpace(name[i+6:])
 			name = strings.TrimSpace(name[:i])
